@@ -25,4 +25,60 @@ PROPS = {
             "seeded sampling of schedules and faults, not exhaustive",
         ],
     },
+    "C02": {
+        "engine": "txnsim",
+        "level": "fault_enumeration",
+        "modes": [
+            {"mode": "crash", "quick": {"runs": 35 * 60}, "thorough": {"runs": 35 * 3000}},
+        ],
+        "rule": ("run index = shape x position: for every generated small transaction shape (1-4 keys over 1-3 regions, put/delete/insert/"
+                 "lock-only, optimistic/pessimistic, with sampled companions: seed writer, readers, conflicting writer, split) the committing "
+                 "client is crashed at every RPC position 0..15 of Commit in both variants (request never delivered / delivered but unanswered) "
+                 "and at TSO positions 0..2; positions beyond the real request count are no-ops and are not counted as non-trivial; "
+                 "non-trivial = the planned crash actually fired; distinct = distinct canonical RPC traces"),
+        "real_vs_stub": REAL_TXN,
+        "assumptions": ["client crash = permanent total partition of that client from TiKV and PD (DESIGN.md 2.4)",
+                        "backend M (mocktikv): 2PC only", "position space is enumerated completely per shape, shapes and companions are sampled"],
+    },
+    "C03": {
+        "engine": "txnsim",
+        "level": "fault_enumeration",
+        "modes": [
+            {"mode": "faults", "quick": {"runs": 200 * 12}, "thorough": {"runs": 200 * 600}},
+        ],
+        "rule": ("run index = shape x fault placement: per shape every single fault from {drop request, drop response (immediate / time-out), "
+                 "NotLeader, EpochNotMatch, ServerIsBusy, StaleCommand, region split, leader move, multi-second stall (lock outlives its ttl, "
+                 "resolvers race the committer), duplicate} at every RPC position 0..11 of Commit, then 56 sampled double/triple placements; "
+                 "non-trivial = a planned fault fired; distinct = distinct canonical RPC traces"),
+        "real_vs_stub": REAL_TXN,
+        "assumptions": ["backend M (mocktikv): 2PC only", "single faults enumerated per shape; pairs sampled"],
+    },
+    "C04": {
+        "engine": "txnsim",
+        "level": "exploration",
+        "modes": [
+            {"mode": "workload", "quick": {"runs": 1500}, "thorough": {"runs": 60000}},
+            {"mode": "faults", "quick": {"runs": 1200}, "thorough": {"runs": 60000}},
+            {"mode": "crash", "quick": {"runs": 700}, "thorough": {"runs": 35000}},
+            {"mode": "leftover", "quick": {"runs": 800}, "thorough": {"runs": 30000}},
+        ],
+        "rule": ("a passive monitor over the complete wire trace (every tikvrpc request/response crossing the tikv.Client seam), the TSO issuance log "
+                 "and the API history of every run of the transactional workloads (mixed workload, fault enumeration, crash enumeration, contention); "
+                 "rules R1-R9 of DESIGN.md 3/C04, each with its own evaluation counter in fault_and_probe_counters (c04.*); non-trivial as in the source mode"),
+        "real_vs_stub": REAL_TXN,
+        "assumptions": ["the statement's tail is cut off in properties.jsonl; R9 covers what is legible", "backend M: no async commit / 1PC requests are produced"],
+    },
+    "C06": {
+        "engine": "txnsim",
+        "level": "exploration",
+        "modes": [
+            {"mode": "leftover", "quick": {"runs": 3000}, "thorough": {"runs": 120000}},
+        ],
+        "rule": ("2-5 contending transactions (70% pessimistic) with LockKeys option mixes (wait/no-wait/timeouts, return-values, check-existence), "
+                 "commit/rollback; region errors, delays, splits, merges and leader moves injected, never a lost message; lock TTLs set to 10 simulated minutes so "
+                 "nothing can expire; after all transactions ended the simulator waits until no RPC was in flight or submitted for 12 simulated seconds and "
+                 "then lists the locks in the store; non-trivial = at least two transactions ended; distinct = canonical RPC traces"),
+        "real_vs_stub": REAL_TXN,
+        "assumptions": ["backend M (mocktikv)", "aggressive-locking call sequences are generated only in the reference-backend configuration"],
+    },
 }
